@@ -304,7 +304,7 @@ def c05_r3(ctx):
     f = prog.method("collectors.TopCollector", "_collect", inherited=False)
     ctx.saw(f)
     pushes = [c for c in norm.calls_in(f.node) if norm.call_name(c) in ("heappush", "heapreplace")]
-    items = [norm.canon(c.args[1]) for c in pushes if len(c.args) > 1]
+    items = [norm.deep_canon(c.args[1], f.node) for c in pushes if len(c.args) > 1]
     ctx.ob(f, len(items) == 2 and all(i == "(score, (0 - global_docnum))" for i in items),
            "heap items are (score, 0 - global_docnum)", detail=str(items))
     fa = guards.Facts(f)
@@ -397,8 +397,16 @@ def c05_r5(ctx):
                        loc=ctx.nodeloc(f, c))
     ctx.ob(f, n_sites >= 2, "replace and skip_to_quality call sites found", detail="%d" % n_sites)
     # self.matcher rebound with the replacement
-    rebound = any(isinstance(st, ast.Assign) and any(norm.canon(t) == "self.matcher" for t in st.targets)
-                  and any(norm.call_name(c) == "replace" for c in norm.calls_in(norm.inline_defs(st.value, f.node))) for st in ast.walk(f.node))
+    def from_replace(v):
+        if any(norm.call_name(c) == "replace" for c in norm.calls_in(norm.inline_defs(v, f.node))) or \
+                (isinstance(v, ast.Call) and norm.call_name(v) == "replace"):
+            return True
+        # self.matcher = m  where m was bound from ....replace(...) (a local with several bindings cannot be inlined)
+        return isinstance(v, ast.Name) and any(
+            isinstance(st2, ast.Assign) and any(isinstance(t2, ast.Name) and t2.id == v.id for t2 in st2.targets)
+            and isinstance(st2.value, ast.Call) and norm.call_name(st2.value) == "replace" for st2 in ast.walk(f.node))
+    rebound = any(isinstance(st, ast.Assign) and any(norm.canon(t) == "self.matcher" for t in st.targets) and from_replace(st.value)
+                  for st in ast.walk(f.node))
     ctx.ob(f, rebound, "self.matcher is rebound to the result of replace()")
 
 
